@@ -11,38 +11,46 @@ Lemma gen_hold_downs : hold_add = (30 * 24 * 60)%Z /\ hold_rem = (90 * 24 * 60)%
   (go_hold_add_ns = hold_add * ns_per_min)%Z /\ (go_hold_rem_ns = hold_rem * ns_per_min)%Z.
 Proof. repeat split; reflexivity. Qed.
 
-Lemma gen_revoke_delta : go_revoke_tag_delta = go_flag_revoke /\ go_bootstrap_tag_delta = go_flag_revoke /\ go_stage_tag_delta = go_flag_revoke /\ go_flag_revoke = 128 /\ go_flag_ksk = 1.
+(* the repaired constructs are where the model says they are: unrevokedKeyTag clears the REVOKE bit and
+   is what AutoTA, stageRevocationSelfSignatures and verifyFetchedKeysWithWork look anchors up with;
+   presence is by dnskeyMaterialFP; NewResolver filters through withoutTombstoned *)
+Lemma gen_fix_sites :
+  go_unrevoke_mask = go_flag_revoke /\ go_flag_revoke = 128 /\ go_flag_ksk = 1 /\
+  length go_autota_oldtag_via = 1%nat /\ length go_stage_oldtag_via = 1%nat /\ length go_bootstrap_oldtag_via = 1%nat /\
+  length go_presence_by = 1%nat /\ length go_newresolver_filter = 1%nat.
 Proof. repeat split; reflexivity. Qed.
 
 Section Step.
 Variable tag : key -> N.
 
-(* corrupt tombstones: the trust set is cleared and nothing is written *)
-Lemma corrupt_tombstones_fails_closed_lemma live cfg d now fe fl :
-  f_tread fl = TRCorrupt ->
+(* a revocation store that exists but cannot be read — tombstone file corrupt or unreadable, state
+   file corrupt or unreadable: the trust set is cleared and nothing is written *)
+Lemma unreadable_store_fails_closed_lemma live cfg d now fe fl :
+  f_tread fl <> TROk \/ f_sread fl = true ->
   let r := autota tag live cfg d now fe fl in
   r_live r = [] /\ r_disk r = d /\ r_writes r = [] /\ r_out r = OPersistence.
 Proof.
-  intros H. unfold autota, prefetch. rewrite H. cbn. repeat split; reflexivity.
+  intros H. unfold autota, prefetch. destruct (f_sread fl); [cbn; repeat split; reflexivity|].
+  destruct H as [H|H]; [|discriminate]. destruct (f_tread fl); [contradiction| |]; cbn; repeat split; reflexivity.
 Qed.
 
 (* both writes fail in a run that accepted a revocation: fail closed, disk untouched *)
 Definition NR (s : pst) : Prop := p_revs s <> [] -> p_newrev s = true.
 
-Lemma process_one_NR now ro fm staged s t : NR s -> NR (process_one now ro fm staged s t).
+Lemma process_one_NR now ro fm staged s t : NR s -> NR (process_one tag now ro fm staged s t).
 Proof.
   intros H. unfold NR, process_one.
   destruct (lookup t fm) as [k|]; [|exact H].
   destruct (mem (k_mat k) (p_tombs s)); [exact H|].
   destruct (ident_existing (p_ksk s) t k); [exact H|].
   destruct (is_rev k).
-  - destruct (lookup (sub16 t go_revoke_tag_delta) (p_ksk s)) as [old|]; [|exact H].
+  - destruct (lookup (tag (unrev k)) (p_ksk s)) as [old|]; [|exact H].
     destruct (is_trusted_st old && same_except_revoke (ta_key old) k && staged_ok staged t); [|exact H].
     cbn. reflexivity.
   - destruct ro; [exact H|]. destruct (lookup t (p_ksk s)); exact H.
 Qed.
 
-Lemma process_NR now ro fm staged tags s : NR s -> NR (process now ro fm staged tags s).
+Lemma process_NR now ro fm staged tags s : NR s -> NR (process tag now ro fm staged tags s).
 Proof.
   intros H. unfold process. apply (fold_left_inv NR); [exact H|]. intros. apply process_one_NR. assumption.
 Qed.
@@ -59,7 +67,7 @@ Proof.
     let fm := fetched_map tag keys in
     let tags := sort_tags (map fst fm) in
     let staged := stage tag ksk2 tombs2 sigs fm tags in
-    let s3 := process now ro fm staged tags (mk_pst ksk2 tombs2 false []) in
+    let s3 := process tag now ro fm staged tags (mk_pst ksk2 tombs2 false []) in
     let s4 := if ro then s3 else mk_pst (keyrem now fm (p_ksk s3)) (p_tombs s3) (p_newrev s3) (p_revs s3) in
     let r := tail (if is_nil live then live else trusted_keys ksk2) d fl s4 in
     r_revoked r <> [] -> r_live r = [] /\ r_disk r = d /\ r_writes r = []).
@@ -110,12 +118,12 @@ Lemma unauthenticated_changes_nothing_lemma live cfg d now keys sigs fl :
   let r0 := autota tag live cfg d now FErr fl in
   r_disk r = d /\ r_writes r = [] /\ r_revoked r = [] /\ r_live r = r_live r0 /\
   (* and that live set is the tombstone-filtered republication, or unchanged in fail-closed mode *)
-  (f_tread fl <> TRCorrupt -> r_live r = if is_nil live then live else candidate tag live cfg d now fl).
+  (f_tread fl = TROk -> f_sread fl = false -> r_live r = if is_nil live then live else candidate tag live cfg d now fl).
 Proof.
   unfold candidate, autota. destruct (prefetch tag live cfg d now fl) as [[ksk2 tombs2]|] eqn:Ep.
   - intros Hn. rewrite (authenticate_fail _ keys sigs Hn). cbn. repeat split; reflexivity.
-  - intros _. cbn. repeat split; try reflexivity. intros H. exfalso. apply H.
-    unfold prefetch in Ep. destruct (f_tread fl); [discriminate|reflexivity|discriminate].
+  - intros _. cbn. repeat split; try reflexivity. intros H1 H2. exfalso.
+    unfold prefetch in Ep. rewrite H1, H2 in Ep. discriminate.
 Qed.
 
 End Step.
